@@ -91,6 +91,7 @@ def strategy(tier: str):
         (1, st.builds(lambda n, v: ["flag", n, "reboot", v], st.sampled_from((1, 2, 3)), st.booleans())),
         (1, st.builds(lambda v: ["metric", v], st.booleans())),
         (1, st.sampled_from((["read_error", "read"], ["read_error", "failed"], ["save"], ["reload"]))),
+        (1, st.sampled_from((1, 9, 11, 61, 901, 86400)).map(lambda t: ["sleep", t])),  # nothing arrives for a while: nothing is written either
     )
     return st.fixed_dictionaries(
         {
@@ -126,6 +127,22 @@ def enumerate_cases(tier: str):
             ops = [["send", [7, 3, 1, 0, 2, "1"], None], ["rx", f"7;3;2;{ack};2;\n"], ["send", [7, 3, 1, 1, 0, "99"], None], ["rx", f"7;3;2;{ack};0;\n"], ["send", [7, 3, 2, 0, 2, ""], None], ["rx", f"7;3;2;{ack};2;\n"]]
             for mode in ("fresh", "persistent"):
                 yield {"version": version, "metric": True, "tz": "UTC0", "epoch": 1_700_000_000, "registry": reg, "ops": ops, "listen_mode": mode}
+    # idle time after each kind of message (version unknown and known): the controller writes only in reaction to a received message
+    idle_lines = ["1;255;3;0;0;55\n", "1;0;1;0;0;5\n", "1;0;2;0;0;\n", "9;9;1;0;0;1\n", "255;255;3;0;3;\n", "1;255;3;0;6;0\n", "1;255;3;0;1;\n", "0;255;3;0;14;ready\n",
+                  "0;255;3;0;9;log\n", "1;255;3;0;22;7\n", "1;255;3;0;32;500\n", "1;255;3;0;18;\n", "junk\n"]
+    idle_reg = {"1": {"node_id": 1, "node_type": 17, "protocol_version": "2.0", "sketch_name": "", "sketch_version": "", "battery_level": 0, "heartbeat": 0, "sleeping": False, "reboot": True,
+                      "children": {"0": {"child_id": 0, "child_type": 6, "description": "", "values": {"0": "20"}}}}}
+    for version in (None, "1.5", "2.2"):
+        ops = []
+        for line in idle_lines:
+            ops += [["rx", line], ["sleep", 11], ["sleep", 120]]
+        ops += [["sleep", 3600], ["sleep", 86400]]
+        for mode in ("fresh", "persistent"):
+            yield {"version": version, "metric": True, "tz": "UTC0", "epoch": 1_700_000_000, "registry": idle_reg, "ops": ops, "listen_mode": mode}
+    # every internal type around the per-version tables while the version is unknown: each decoded message is followed by the query
+    for mode in ("fresh", "persistent"):
+        ops = [["rx", f"{n};255;3;{a};{t};1\n"] for t in range(-1, 40) if t != 2 for n, a in ((1, 0), (9, 1))]
+        yield {"version": None, "metric": True, "tz": "UTC0", "epoch": 1_700_000_000, "registry": idle_reg, "ops": ops, "listen_mode": mode}
     # every sender id asks for an id, for the time, for the configuration (the answer goes to the asker, not to a fixed address)
     for version in (None, "1.5", "2.2"):
         ops = []
@@ -196,7 +213,10 @@ def run_case(case: dict) -> Outcome:
         return None
 
     try:
-        bad, info = env.run(drive.run_history(case, ASPECTS, hooks={"time_check": time_check, "after_step": after_step}))
+        from vf.vloop import run_virtual
+
+        # on the virtual-time loop: idle periods of seconds to hours between messages cost nothing
+        (bad, info), _loop = run_virtual(lambda: drive.run_history(case, ASPECTS, hooks={"time_check": time_check, "after_step": after_step}))
     finally:
         if shimmed:
             p14.time = real_time
